@@ -361,6 +361,12 @@ UNITS = [
       props={'memsafe': ['C13'], 'ub': ['C13']},
       assumes=['plain symbolic execution of the real Parameters::Parameters(); constructors, setters, lock, Group::parameter(p) and '
                'Parameters::group(g) are recording stubs (their own units: Parameter_set_*, Group_parameter, B_Parameters_group_merge)']),
+    U('c3d_lockGroup', 'contracts/lockgroup.c', 'h_c3d_lockGroup', ['c3d__lockGroup/contract_c3d__lockGroup'], ['C09', 'C10', 'C13', 'C18'],
+      replace=['Parameters__group_nonConst__str/contract_lg_Parameters__group_nonConst__str'], unwind=3, timeout=300,
+      assumes=['the by-name accessor returns the group of that name or throws invalid_argument (first match: unit Parameters_groupIdx)']),
+    U('c3d_unlockGroup', 'contracts/lockgroup.c', 'h_c3d_unlockGroup', ['c3d__unlockGroup/contract_c3d__unlockGroup'], ['C09', 'C10', 'C13', 'C18'],
+      replace=['Parameters__group_nonConst__str/contract_lg_Parameters__group_nonConst__str'], unwind=3, timeout=300,
+      assumes=['the by-name accessor returns the group of that name or throws invalid_argument (first match: unit Parameters_groupIdx)']),
     U('Parameters_write', WR, 'h_Parameters_write', ['Parameters__write/contract_Parameters__write'],
       ['C01', 'C03', 'C13', 'C14', 'C10'], replace=['Group__write/contract_abs_Group__write'], unwind=5, loops=True, timeout=900,
       pre_unwind={'vf_stream_write.0': 5, 'Parameters__write.0': 3},
